@@ -1122,6 +1122,11 @@ fn build_tree() -> Tree {
     std::os::unix::fs::symlink("g.gz", base.join("sub/g.gz")).unwrap();
     std::os::unix::fs::symlink("k.gz", base.join("k.gz")).unwrap();
     drop(std::os::unix::net::UnixListener::bind(base.join("h.gz")).unwrap());
+    // a `.gz` sibling that opens fine and is neither a directory nor a regular file (a character
+    // device behind a symlink): "exists and is not a directory" is all C19 asks of a sibling
+    std::fs::write(base.join("n"), "plain n").unwrap();
+    std::os::unix::fs::symlink("/dev/null", base.join("n.gz")).unwrap();
+    std::os::unix::fs::symlink("/dev/null", base.join("sub/dev")).unwrap();
     // deep nesting: short names, but a path of more than 255 (and more than 1024) bytes in total
     let mut deep = base.join("deep");
     for i in 0..180 {
@@ -1156,8 +1161,18 @@ fn tree_line(p: &Path, out: &mut Vec<String>) {
     } else if m.is_file() {
         out.push("f".into());
         out.push(m.ino().to_string());
+    } else if let (true, Ok(t)) = (m.file_type().is_symlink(), std::fs::metadata(p)) {
+        // a symlink that resolves (to a device, outside the tree): opens like a file, and is
+        // what it points to
+        if t.is_dir() {
+            out.push("b".into());
+            out.push(m.ino().to_string());
+        } else {
+            out.push("f".into());
+            out.push(t.ino().to_string());
+        }
     } else {
-        // a symlink (the tree only has loops) or a socket: exists, cannot be opened
+        // a symlink loop or a socket: exists, cannot be opened
         out.push("b".into());
         out.push(m.ino().to_string());
     }
@@ -1203,7 +1218,7 @@ pub fn c19(em: &mut Emit, thorough: bool, seed: u64) {
     let bs_abs = format!("{}\\secret", t.outer.display().to_string().replace('/', "\\"));
     let segs: Vec<&str> = vec![
         "a", "sub", "..", ".", "...", "..a", "a..", "", "secret", "b", "c", "d", "e", "f", "g", "h", "k", "g.gz", &long,
-        ".gz", "..gz", "a.gz", "a.gz.gz",
+        ".gz", "..gz", "a.gz", "a.gz.gz", "n", "dev",
         // backslashes are ordinary name bytes, not separators
         "sub\\a", "..\\secret", "\\", "a\\..", &bs_abs,
     ];
